@@ -668,9 +668,8 @@ Proof.
                (fun st2 sc2 => ev st2 sc2 (EDoLoop false bs e rs es))); ws.
       apply wf_mk_frame; assumption.
   - (* EDoLoop *) destruct sc as [|[f h] sc']; [apply good_err; assumption|].
-    apply good_bindo; [assumption|]. intros never Hn.
     eapply good_bind.
-    + instantiate (1 := ptrue). destruct never; [apply good_ret; [assumption|exact I]|apply ev_test_wf; assumption].
+    + apply ev_test_wf; assumption.
     + intros t s E Ws _. destruct t; [apply ev_seq_wf; ws; apply wf_nil|].
       eapply good_bind; [apply ev_seq_wf; [assumption|ws|apply wf_nil]|]. intros u s2 E2 W2 _.
       assert (S2 : wf_scope s2 ((f, h) :: sc')) by (eapply wf_scope_ext; [exact E2|ws]).
